@@ -169,7 +169,9 @@ def _worker(task):
     root = tempfile.mkdtemp(prefix='c03_')
     nev, bad = 0, None
     try:
-        T = synth.make_catalog(root, layout, seed=seed + 30 + li, max_np=2)
+        # every second layout uses superslab numbers that are neither contiguous nor three-digit (halo_info_1000.asdf next to 000)
+        numbers = None if li % 2 == 0 else ([0, 7, 1000, 1012][:len(layout)])      # increasing, so that the sorted directory listing is the file order
+        T = synth.make_catalog(root, layout, seed=seed + 30 + li, max_np=2, slab_numbers=numbers)
         for k, (kind, arg, opts) in enumerate(_cases(layout, seed, li, tier)):
             if k % nch != ch:
                 continue
